@@ -69,3 +69,40 @@ Lemma type_json_roundtrip_facts_l t :
   t < 2 ^ 64 ->
   type_from_json all_reg f_cav_unregistered (type_to_json all_reg f_cav_min_user_defined t) = t.
 Proof. intros Ht. apply type_json_roundtrip_l; [exact facts_reg_ok_l|exact Ht]. Qed.
+
+(* with aliases: a name printed for a registered type is found among the registered names first, a numeral is no alias
+   (the generated alias list is checked), so the round trip is unchanged *)
+Definition aliases_ok (reg : list (N * string)) (al : list (string * N)) : bool :=
+  forallb (fun e => negb (is_decimal (fst e))) al.
+Lemma type_json_roundtrip_al_l reg al min_user unreg t :
+  reg_ok reg = true -> aliases_ok reg al = true -> t < 2 ^ 64 ->
+  type_from_json_al reg al unreg (type_to_json reg min_user t) = t.
+Proof.
+  intros Hok Hal Ht. pose proof (type_json_roundtrip_l reg min_user unreg t Hok Ht) as H.
+  unfold type_from_json_al. unfold type_from_json in H.
+  destruct (find (fun e => String.eqb (snd e) (type_to_json reg min_user t)) reg) as [[t' s']|] eqn:E; [exact H|].
+  (* not a registered name: then it is the numeral of t, and no alias is a numeral *)
+  assert (Hd : type_to_json reg min_user t = dec_string t).
+  { unfold type_to_json. destruct (find (fun e => fst e =? t) reg) as [[t1 s1]|] eqn:F; [|reflexivity].
+    destruct (t <? min_user) eqn:L; [|reflexivity]. exfalso.
+    apply find_some in F. destruct F as [Hin Ht1]. cbn [fst] in Ht1. apply N.eqb_eq in Ht1. subst t1.
+    unfold type_to_json in E. 
+    assert (F2 : find (fun e => fst e =? t) reg <> None).
+    { intro Hn. apply (find_none _ _ Hn) in Hin. cbn [fst] in Hin. rewrite N.eqb_refl in Hin. discriminate. }
+    destruct (find (fun e => fst e =? t) reg) as [[t2 s2]|] eqn:F3; [|now contradiction F2].
+    rewrite L in E. apply find_some in F3. destruct F3 as [Hin3 _].
+    apply (find_none _ _ E) in Hin3. cbn [snd] in Hin3. rewrite String.eqb_refl in Hin3. discriminate. }
+  rewrite Hd in *.
+  destruct (find (fun e => String.eqb (fst e) (dec_string t)) al) as [[a ta]|] eqn:A; [|exact H].
+  exfalso. apply find_some in A. destruct A as [Hin Ha]. cbn [fst] in Ha. apply String.eqb_eq in Ha.
+  unfold aliases_ok in Hal. rewrite forallb_forall in Hal. specialize (Hal _ Hin). cbn [fst] in Hal.
+  rewrite Ha, dec_string_is_decimal in Hal. discriminate.
+Qed.
+
+Lemma aliases_ok_facts_l : aliases_ok all_reg json_aliases = true.
+Proof. vm_compute. reflexivity. Qed.
+
+Lemma type_json_roundtrip_al_facts_l t :
+  t < 2 ^ 64 ->
+  type_from_json_al all_reg json_aliases f_cav_unregistered (type_to_json all_reg f_cav_min_user_defined t) = t.
+Proof. intros Ht. apply type_json_roundtrip_al_l; [exact facts_reg_ok_l|exact aliases_ok_facts_l|exact Ht]. Qed.
